@@ -581,7 +581,12 @@ fn adaptors(c: &mut Cat, seed: u64, n_trees: u64) {
                     bb(o.next());
                 }
             }
-            drop(lag);
+            // the laggard goes out of scope while its thread is unwinding from a (caught) panic:
+            // destructors run then too, and it must be deregistered like any other output
+            let _ = vmon::catch(std::panic::AssertUnwindSafe(move || {
+                let _held = lag;
+                panic!("unwinding while a bus output is alive");
+            }));
         }
         outs.push(bus.send());
         for _ in 0..4 {
